@@ -39,6 +39,21 @@ P = {
  "C20": (True, "seq", "differential runtime monitor: Stats() snapshot compared with model tallies after every operation; counters sampled for monotonicity under concurrency",
    "Held on the explored histories: hits/misses per counting operation, load successes/failures per loader invocation by outcome, evictions/weight paired with Overflow/Expiration events.",
    "A panicking compute function is not counted as a lookup (the call does not complete).", "4/C20"),
+ "C02": (True, "conc", "linearizability checking of recorded concurrent histories (porcupine v1.3.0, per key) + callback counter + Go race detector, with PRNG delays at verif yield points",
+   "Held on the recorded histories: each key's sub-history (explicit operations, loader-backed Get split into read-miss and install, automatic removals as operations bounded by the two handlers) has a linearization; compute functions ran exactly once.",
+   "Schedules are sampled; checker timeouts are reported as inconclusive; quiet reads and iterators are not part of the histories.", "4/C02"),
+ "C04": (True, "conc", "quiescence monitor: bound on the weights of All() after one CleanUp, Overflow events of zero-weight values, VerifAudit weightedSize <= maximum; race detector",
+   "Held on the explored concurrent trials (inserts, weight-changing updates, reads, invalidations, SetMaximum; sync / async / default executors; delays between table update and write-buffer publish).",
+   "Judged only after all calls returned, the executor is idle and exactly one CleanUp ran.", "4/C04"),
+ "C05": (True, "conc", "quiescence monitor: view equalities (WeightedSize, EstimatedSize, Hottest/Coldest vs All) + white-box structural audit of deques, weight totals and timer wheel through VerifAudit; race detector",
+   "Held on the explored concurrent trials: every table node is alive and linked exactly once in the queue its flag names, per-queue weight sums equal the running totals, nothing dead is linked.",
+   "The audit reads internal state through the verif-tag export under the eviction lock; schedules are sampled.", "4/C05"),
+ "C06": (True, "conc", "offline checker over both deletion-handler logs: exactly-once, conservation (written = present + reported), handler agreement, cause explanation, per-key order along the install chain; race detector",
+   "Held on the explored trials, sequential (exact expected event multiset per operation, in the C01 engine) and concurrent (replacement racing with eviction, InvalidateAll racing with writers, sync and async executors).",
+   "Unique values make the histories unambiguous; OnDeletion is judged after the executor is idle.", "4/C06"),
+ "C14": (True, "conc", "quiescence audit without any further cache call (VerifAudit: drain status idle, write buffer empty, weightedSize <= maximum, notifications delivered) over thousands of short trials with the default executor made countable; delays at the drain-protocol yield points",
+   "Held on the explored trials: liveness is restated as a safety property of the quiescent state; all four drain states and both CAS failure paths are exercised (hook log).",
+   "For-all-interleavings is sampled; VerifSetDefaultExecutor replaces the package default executor only to count its goroutines.", "4/C14"),
 }
 NOT_YET = {
  "C02": "check under construction in this session (concurrent engine)",
